@@ -526,6 +526,9 @@ func runC18(c *Ctx) error {
 	if err := c18ConstSuite(c); err != nil {
 		return err
 	}
+	if err := c18ScopeSuite(c); err != nil {
+		return err
+	}
 	return c18ConvSuite(c, cases)
 }
 
@@ -1111,6 +1114,82 @@ func c18ConstSuite(c *Ctx) error {
 				}
 				res.Dist(key + ":equal")
 			}
+		}
+	}
+	return nil
+}
+
+// ---------- helpers are local to their rule group ----------
+
+// c18ScopeSuite: several rule groups of one file declare local helpers under the same name (same or
+// different arity, different bodies).  Each group must convert to the IR of the group with its *own*
+// helper inlined (or the file is rejected); a helper of an earlier group must never be used.
+func c18ScopeSuite(c *Ctx) error {
+	res := c.Res
+	type grp struct{ helper, call, inlined string }
+	pool := []grp{
+		{`h := func(v dsl.Var) bool { return v.Const }`, `h(m["x"])`, `m["x"].Const`},
+		{`h := func(v dsl.Var) bool { return v.Pure }`, `h(m["x"])`, `m["x"].Pure`},
+		{`h := func(v dsl.Var) bool { return !v.Addressable }`, `h(m["x"])`, `!m["x"].Addressable`},
+		{`h := func(v dsl.Var, s string) bool { return v.Type.Is(s) }`, `h(m["x"], "int")`, `m["x"].Type.Is("int")`},
+		{`h := func(s string, v dsl.Var) bool { return v.Text.Matches(s) }`, `h("^a", m["x"])`, `m["x"].Text.Matches("^a")`},
+		{`h := func() bool { return m.Deadcode() }`, `h()`, `m.Deadcode()`},
+	}
+	rng := hx.Rng(c.Seed, "c18-scope")
+	n := 40
+	if c.Thorough {
+		n = 600
+	}
+	norm := func(f *ir.File) []ir.FilterExpr {
+		var out []ir.FilterExpr
+		for _, g := range f.RuleGroups {
+			for _, r := range g.Rules {
+				out = append(out, stripIR(r.WhereExpr))
+			}
+		}
+		return out
+	}
+	for i := 0; i < n; i++ {
+		k := 2 + rng.Intn(3)
+		var with, without strings.Builder
+		hdr := "package gorules\n\nimport \"github.com/quasilyte/go-ruleguard/dsl\"\n\n"
+		with.WriteString(hdr)
+		without.WriteString(hdr)
+		for gi := 0; gi < k; gi++ {
+			g := pool[rng.Intn(len(pool))]
+			fmt.Fprintf(&with, "func g%d(m dsl.Matcher) {\n\t%s\n\tm.Match(`f($x)`).Where(%s).Report(`r`)\n}\n\n", gi, g.helper, g.call)
+			fmt.Fprintf(&without, "func g%d(m dsl.Matcher) {\n\tm.Match(`f($x)`).Where(%s).Report(`r`)\n}\n\n", gi, g.inlined)
+		}
+		res.Count("scope", with.String(), true)
+		lw, err := c18Load(with.String())
+		if err != nil {
+			res.Errorf("c18 scope: generated file does not type-check: %v", err)
+			continue
+		}
+		lo, err := c18Load(without.String())
+		if err != nil {
+			res.Errorf("c18 scope: inlined file does not type-check: %v", err)
+			continue
+		}
+		fw, ow := lw.convert()
+		fo, oo := lo.convert()
+		in := map[string]interface{}{"rules": with.String(), "inlined": without.String()}
+		switch {
+		case strings.HasPrefix(ow, "panic"):
+			res.Dist("scope:panic")
+			res.Violate(hx.Violation{Signature: "scope:panic", What: "ConvertFile panics on same-named helpers in different groups: " + ow, Input: in, Impl: ow, Spec: "IR of the inlined groups"})
+		case oo != "ok":
+			res.Errorf("c18 scope: the inlined file is rejected: %s", oo)
+		case ow != "ok":
+			// rejected although every group is valid on its own: allowed by C18 (rejected, never different), counted
+			res.Dist("scope:rejected")
+			res.Violate(hx.Violation{Signature: "scope:valid-groups-rejected", What: "a file whose groups each use their own local helper is rejected: " + ow, Input: in, Impl: ow, Spec: "IR of the inlined groups"})
+		case !reflect.DeepEqual(norm(fw), norm(fo)):
+			res.Dist("scope:different-IR")
+			res.Violate(hx.Violation{Signature: "scope:helper-of-another-group-used", What: "a group converts to something else than its own helper inlined (a same-named helper of another group leaked)",
+				Input: in, Impl: fmt.Sprintf("%+v", norm(fw)), Spec: fmt.Sprintf("%+v", norm(fo))})
+		default:
+			res.Dist("scope:equal-IR")
 		}
 	}
 	return nil
